@@ -233,6 +233,7 @@ def _receive(ctx, w, can_id, data, kind="data"):
 
 def _add_node(ctx, w, nid, kind):
     net = w.net
+    ctx.op("add-node", kind, nid, "replacing" if nid in w.nodes else "new")
     old = w.nodes.get(nid)
     if kind == "remote":
         node = canopen.RemoteNode(nid, canopen.ObjectDictionary())
@@ -262,6 +263,7 @@ def _add_node(ctx, w, nid, kind):
 
 def _remove_node(ctx, w, nid):
     rec = w.nodes[nid]
+    ctx.op("remove-node", rec.kind, nid)
     try:
         del w.net[nid]
     except Exception as e:      # noqa
@@ -351,12 +353,14 @@ def scenario(ctx):
                     ctx.probe("subscribe-duplicate")
                 else:
                     lst.append(k)
+                ctx.op("subscribe", hex(can_id), "cb%d" % k)
                 net.subscribe(can_id, w.cbs[k])
                 ctx.cover(("sub", len(lst)))
             elif op == "unsub":
                 have = sorted((cid, k) for cid, ks in w.subs.items() for k in ks)
                 if have:
                     cid, k = have[ctx.choice(len(have), "which")]
+                    ctx.op("unsubscribe", hex(cid), "cb%d" % k)
                     net.unsubscribe(cid, w.cbs[k])
                     w.subs[cid].remove(k)
                     ctx.cover(("unsub", len(w.subs[cid])))
@@ -368,6 +372,7 @@ def scenario(ctx):
                 cands = sorted(cid for cid, ks in w.subs.items() if ks and cid not in busy)
                 if cands:
                     cid = cands[ctx.choice(len(cands), "which")]
+                    ctx.op("unsubscribe-all", hex(cid))
                     net.unsubscribe(cid)
                     w.subs[cid] = []
                     ctx.probe("unsubscribe-all")
@@ -380,6 +385,7 @@ def scenario(ctx):
                     ids = sorted(w.nodes)
                     nid = ids[ctx.choice(len(ids), "which")]
                     rec = w.nodes[nid]
+                    ctx.op("re-add-same-node-object", rec.kind, nid)
                     if ctx.choice(2, "how"):
                         _, exc = call(w.net.add_node, rec.node)
                     else:
@@ -399,6 +405,7 @@ def scenario(ctx):
             elif op == "txp":
                 _send(ctx, w, True)
             else:
+                ctx.op("scanner.reset")
                 net.scanner.reset()
                 w.scanner_model = []
                 ctx.probe("scanner-reset")
